@@ -584,12 +584,15 @@ impl<TokenIter: Iterator<Item = Result<Token>>> Parser<TokenIter> {
                                         .into()
                                 }
                                 keyword => {
-                                    if let Some(transformer) =
-                                        syntax_env.get(&first.expect_symbol()?)
-                                    {
+                                    if syntax_env.get(keyword).is_some() {
                                         let remained = DatumBody::Pair(pair).locate(location);
-                                        let mut expanded_datum =
-                                            transformer.transform(keyword, remained)?;
+                                        // the borrow of the syntax environment ends with this
+                                        // statement: the expansion may be a define-syntax
+                                        let expanded = syntax_env
+                                            .get(keyword)
+                                            .unwrap()
+                                            .transform(keyword, remained);
+                                        let mut expanded_datum = expanded?;
                                         // an expansion whose template gives no location stands
                                         // where the macro use stood
                                         expanded_datum.location =
